@@ -22,6 +22,7 @@ K7 = "undeploy-under-live-wrapper:dependants-stripped-before-undeploy"
 K8 = "hang:deploy-waits-forever-after-failure-inside-_inner_deploy"
 KA = "deploy-returned-before-deployed:event-of-redeploy-set-by-finishing-undeploy"
 KB = "lazy-connector-not-undeployed:FutureConnector.undeploy-during-its-deploy"
+KD = "hang:event-of-failed-deployment-cleared-by-waiting-undeploy"
 KC = "undeploy_all-left-live:failed-wrapper-stays-in-dependants-of-wrapped"
 
 
@@ -37,7 +38,8 @@ def gen_case(rng: random.Random, idx: int, single: bool | None = None) -> dict:
 
     def req():
         k = rng.choice(["deploy"] * 5 + ["undeploy"] * 3 + ["undeploy_all"] + (["use"] * 3 if single else []))
-        return [k] if k == "undeploy_all" else [k, rng.choice(names)]
+        delay = rng.choice([0, 0, 0, 1, 2, 4, 7])
+        return [k, None, delay] if k == "undeploy_all" else [k, rng.choice(names), delay]
 
     prefix = [["deploy", rng.choice(names)] for _ in range(rng.choice([0, 0, 1, 1, 2]))]
     batch = [req() for _ in range(rng.randint(1, 4))]
@@ -107,6 +109,11 @@ def monitor(case: dict, r: dict) -> list[tuple[str, str]]:
         if waits and all(n in r["maps"].get("config_map", []) and n not in r["maps"].get("deployments_map", []) and deps[n]["wraps"]
                          and n not in own_failed for n in waits) and len(waits) == len(pend):
             fails.append((K8, f"requests {pend} wait for the event of {sorted(set(waits))} which is never set: the request that registered it raised inside _inner_deploy"))
+        elif waits and len(waits) == len(pend) and all(
+                n in r["maps"].get("config_map", []) and n not in r["maps"].get("deployments_map", []) and n in own_failed
+                and any(o[1] == "ev-clear" and o[2] == n and _is_undeploy_task(r, o[0]) for o in ops) for n in waits):
+            fails.append((KD, f"requests {pend} wait for the event of the failed deployment {sorted(set(waits))}, which a woken "
+                              f"undeploy request cleared before hitting its KeyError"))
         else:
             fails.append(("hang", f"requests {pend} never finished; last operations {last}"))
     lazy_race = set()
@@ -127,8 +134,11 @@ def monitor(case: dict, r: dict) -> list[tuple[str, str]]:
             fails.append(("deploy-twice-same-object", f"{d}"))
         if len(d.get("undeploy-enter", [])) > 1:
             fails.append(("undeploy-twice", f"{n} object {o} undeployed twice"))
-        if "undeploy-enter" in d and "deploy-exit" not in d:
-            fails.append(("undeploy-of-not-deployed", f"{d}"))
+        if "undeploy-enter" in d and not ("deploy-exit" in d and d["deploy-exit"][0] < d["undeploy-enter"][0]):
+            by_undeploy = any(op[1] == "ev-set" and op[2] == n and _is_undeploy_task(r, op[0])
+                              for op in _ops_between(r, d["deploy-enter"][0], d["undeploy-enter"][0])) if "deploy-enter" in d else False
+            fails.append((KA if by_undeploy else "undeploy-of-not-deployed",
+                          f"{n} object {o}: undeploy() entered at {d['undeploy-enter'][0]} while its deploy() had not completed: {d}"))
         if "deploy-enter" in d:
             t = d["deploy-enter"][0]
             for o2, d2 in obj.items():
@@ -153,7 +163,10 @@ def monitor(case: dict, r: dict) -> list[tuple[str, str]]:
                     fails.append(("deploy-returned-without-connector", f"{q}"))
                 else:
                     last = obj[max(objs)]
-                    if not ("deploy-exit" in last and last["deploy-exit"][0] < q["end"]):
+                    # some connector of the deployment was live at an instant of the request's lifetime
+                    served = any("deploy-exit" in obj[o] and obj[o]["deploy-exit"][0] < q["end"]
+                                 and not ("undeploy-enter" in obj[o] and obj[o]["undeploy-enter"][0] < q["start"]) for o in objs)
+                    if not served:
                         by_undeploy = any(op[1] == "ev-set" and op[2] == n and _is_undeploy_task(r, op[0])
                                           for op in _ops_between(r, last["create"], q["end"]))
                         fails.append((KA if by_undeploy else "deploy-returned-before-deployed",
@@ -265,6 +278,8 @@ def protocol_a(case: dict, r: dict) -> tuple[list[str], list[str], list[str]]:
             cls = "undeploy-call"
         elif task.startswith("Task-") and names and names[-1] in ("ev-set", "deps.discard", "deployments_map.keys"):
             cls = "end-ok"            # child of undeploy_all finished (its parent logs the request end)
+        elif task.startswith("Task-") and sg["why"] == "ev-wake" and (not names or names[-1] in ("ev-clear",)):
+            cls = "end-exc"           # child of undeploy_all woken into a KeyError (its map entries are gone)
         else:
             cls = "silent"
         lines.append(f"A {act} {p}")
